@@ -255,6 +255,8 @@ def _lat_specs(tier, tag):
     # dense lattices: loop grammars over short words, beams open, 18 (thorough 21) frames: thousands of paths, the N-best agenda fills
     sp.append(('%s-open-loop-dense' % tag, ['--conf', 'open', '--gset', 'loop', '--syms', 'AH,G,OW', '--segs', '6' if tier == 'quick' else '7', '--lens', '3',
                                             '--routes', 'api', '--patterns', '1'], 2))
+    # REAL audio and REAL scorer: 12 excerpts of the recording under loop grammars (one of 19 words): lattices of 100-300 nodes
+    sp.append(('%s-real-loop' % tag, ['--conf', 'default', '--gset', 'loop', '--real', '1', '--syms', 'AH', '--routes', 'jsgf,api', '--patterns', '1', '--pattern', '2'], 3))
     sp.append(('%s-open-nofiller-hand' % tag, ['--conf', 'open', '--filler', '0', '--gset', 'hand', '--syms', 'SIL,AH,G,OW,T,_', '--segs', '3', '--routes', 'api']))
     if tier == 'thorough':
         for conf in ('default', 'tight', 'open'):
